@@ -26,6 +26,10 @@ def compare_strict(x, y):
 
     In Python True == 1 == 1.0, but these are different JSON values.
     """
+    if x != x and y != y:
+        # NaN (which Python's json and nbformat read and write) is the one
+        # value that is not equal to itself
+        return True
     return x == y and _json_number_type(x) is _json_number_type(y)
 
 
